@@ -391,6 +391,13 @@ class NumpyFuncs:
             return Arr(a.shape, lambda *i: SQRT(to_z3(to_real(a.get(*i)))), "real", own=True)
         return f(a)
 
+    def np_where(self, st, args, kw, node):
+        if len(args) != 3:
+            raise Unsupported("np.where with one argument")
+        c, a, b = args
+        return self.elementwise(st, lambda x, y, z: mk_ite(x, y, z) if not is_concrete(x) else (y if x else z), [c, a, b], node,
+                                kind=join_kind(self.scalar_or_arr_kind(a), self.scalar_or_arr_kind(b)), what="np.where")
+
     def np_isnan(self, st, args, kw, node):
         a = args[0]
         from .values import OptV
